@@ -261,7 +261,17 @@ void InterfacePayload::setData(const uint8_t* streamIds,
 bool InterfacePayload::isValidPayload(const uint8_t* data, const size_t size)
 {
     auto header = reinterpret_cast<const Header*>(data);
-    return (size >= sizeof(Header) && header->getInterfaceStatus() <= InterfaceStatus::disabled);
+    if (size < minPayloadSize || header->getInterfaceStatus() > InterfaceStatus::disabled)
+        return false;
+
+    // The header is followed by the stream IDs count, stream IDs padded to even length, vendor data length and vendor data
+    size_t offset = sizeof(Header);
+    size_t length = (data[offset] << 8) | data[offset + 1];
+    offset += sizeof(uint16_t) + length + (length % 2);
+    if (size < offset + sizeof(uint16_t))
+        return false;
+    length = (data[offset] << 8) | data[offset + 1];
+    return size >= offset + sizeof(uint16_t) + length;
 }
 
 const InterfacePayload::Header* InterfacePayload::getHeader() const
